@@ -103,6 +103,24 @@ CHECKS = {
         "0, 1, NaN, +-inf and batches.",
         note="hedge.hedge is the library's (C05); hedges applied nearest-the-term first; bit-exact",
     ),
+    "C02": dict(
+        level="exploration",
+        technique="shadow-replay monitor on Engine.process: deep copy at entry, the same rows replayed one by one as Python floats on the copy, exact differential comparison of values, fuzzy outputs and exceptions; monitor on the Engine.input_values setter/getter",
+        text="Every observed batch call is replayed row by row in float mode from the same starting state and compared exactly (output "
+        "values incl. lock-previous/default/lock-range carry-over, activated degrees per row, raised exceptions in either mode, "
+        "readability of Engine.output_values); histories of consecutive batches with NaN/inf rows in all positions, both ways of setting a "
+        "batch, all defuzzifiers and lock settings, plus the shipped examples.",
+        note="the oracle is the library itself in float mode on a deep copy (C13 judges copies); General activation only, as the property says",
+    ),
+    "C13": dict(
+        level="exploration",
+        technique="runtime monitors on Engine.process/restart/copy: differential comparison with an engine freshly rebuilt from the generator's spec, object-graph walker for shared mutable state, reference-closure check at quiescent points; random operation sequences",
+        text="After every observed process() (lock-previous off) the enabled outputs and fuzzy outputs must equal those of a freshly built engine "
+        "on the same inputs; after restart() the engine must look like a fresh one; after copy() no mutable object may be reachable from "
+        "both engines, all references of the copy must stay inside it, and edits of one side must not show on the other; sequences of "
+        "set-inputs/process/restart/copy/edit/toggle operations are random.",
+        note="fresh engines are rebuilt from the generator's spec plus the lineage's edits; bit-exact; Function formulas over inputs only",
+    ),
 }
 NOT_APPLICABLE = [
     {"property_id": p, "reason": "check not built yet in this session (work in progress; see DESIGN.md §4)"} for p in ALL if p not in CHECKS
